@@ -4,6 +4,8 @@ package world
 
 import (
 	"fmt"
+	"os"
+	"path/filepath"
 	"runtime"
 	"sort"
 	"strings"
@@ -51,6 +53,8 @@ type ClientSpec struct {
 	ExpectAlt  map[int][]byte // position -> second acceptable reply
 	ExpectEOF  bool           // reference: proxy closes the connection after the last reply
 	Reqs       [][]byte       // the requests, for reporting
+	// ConnectGate: the client only connects (becomes acceptable) once this holds (nil: from the start)
+	ConnectGate func(w *World) bool
 }
 
 type Fault struct {
@@ -59,6 +63,7 @@ type Fault struct {
 	AfterW     int                 // enabled once that connection has received this many commands
 	AfterTicks int                 // enabled once this many TICK events have happened
 	Nodes      []NodeSpec          // topo: the new topology
+	Text, Dir  string              // "whitelist": new content of <Dir>/authip.yaml, loaded through the real reload function
 	Gate       func(w *World) bool // optional extra condition
 	// further kinds: "nodes-change" (the nodes report a new topology), "node-down" / "node-up" (the node at Addr stops /
 	// resumes accepting connections and answering health probes)
@@ -219,6 +224,7 @@ type World struct {
 	RefreshDead  bool
 	TickUnread   []map[int]bool // per TICK: Seq of commands whose reply the proxy had not completely read yet
 	Topo         []NodeSpec     // current topology as last injected (nil: Sc.Nodes)
+	deferred     []*Client      // clients whose ConnectGate has not held yet
 	LastFd       int            // descriptor and readiness mask of the event handed to the proxy most recently
 	LastMask     uint32
 }
@@ -422,6 +428,10 @@ func ExecuteWith(sc *Scenario, choose vsys.Chooser, boot func(w *World)) *World 
 		s.OnWrite = func(b []byte) { cc.onBytes(b) }
 		s.OnClose = func() { cc.ProxyClosed = true; cc.BytesAtClose = len(cc.Received) }
 		w.Clients = append(w.Clients, c)
+		if cs.ConnectGate != nil {
+			w.deferred = append(w.deferred, c)
+			continue
+		}
 		w.Ln.Pending = append(w.Ln.Pending, s)
 	}
 
@@ -556,6 +566,10 @@ func (w *World) enabled() []event {
 			evs = append(evs, event{evClient, i})
 		}
 	}
+	for len(w.deferred) > 0 && w.deferred[0].Spec.ConnectGate(w) {
+		w.Ln.Pending = append(w.Ln.Pending, w.deferred[0].Sock)
+		w.deferred = w.deferred[1:]
+	}
 	if in, ok := vsys.Interest(w.Ln.Fd); ok && in&unix.EPOLLIN != 0 && len(w.Ln.Pending) > 0 {
 		evs = append(evs, event{evAccept, 0})
 	}
@@ -578,7 +592,7 @@ func (w *World) enabled() []event {
 		if w.faultUsed[i] || w.Ticks < f.AfterTicks || (f.Gate != nil && !f.Gate(w)) {
 			continue
 		}
-		if f.Kind == "topo" || f.Kind == "nodes-change" || f.Kind == "node-down" || f.Kind == "node-up" {
+		if f.Kind == "topo" || f.Kind == "nodes-change" || f.Kind == "node-down" || f.Kind == "node-up" || f.Kind == "whitelist" {
 			evs = append(evs, event{evFault, i})
 		} else if bc := w.faultTarget(f); bc != nil {
 			evs = append(evs, event{evFault, i})
@@ -755,6 +769,15 @@ func (w *World) wait() (fd int, mask uint32, n int, stop bool) {
 			if f.Kind == "nodes-change" {
 				w.ClusterView = f.Nodes // from now on the nodes describe this topology in CLUSTER NODES
 				w.Topo = f.Nodes
+				continue
+			}
+			if f.Kind == "whitelist" {
+				if err := os.WriteFile(filepath.Join(f.Dir, "authip.yaml"), []byte(f.Text), 0o644); err == nil {
+					err = authip.VerifReload(f.Dir, "authip.yaml")
+					if err != nil {
+						vsys.Tracef("whitelist reload failed: %v", err)
+					}
+				}
 				continue
 			}
 			if f.Kind == "node-down" || f.Kind == "node-up" {
